@@ -6,7 +6,7 @@ import sys
 
 import progs
 import roles as R
-from core import (probe, member, inter, diff, cat, union, loop, SEP, EPS, tier, main_wrapper,
+from core import (probe, member, inter, diff, cat, union, loop, lit, SEP, EPS, tier, main_wrapper,
                   Inconclusive)
 from session import Session
 
@@ -42,6 +42,49 @@ def run():
             tasks.append((("short", i, k), member(inter(L, short))))
         if rooted and k >= 1:
             tasks.append((("short", i, 0), member(inter(L, SEP))))
+    # anchor: the directory the walk starts from (real Glob::anchor through the hook, base "B0") must
+    # lie above every match, and the pivot must be the number of prefix components
+    arows = probe([{"op": "anchor", "e": r["text"], "base": "B0"} for r in recs])
+    anchored = 0
+    for i, (r, ar) in enumerate(zip(recs, arows)):
+        if not ar or not ar.get("ok"):
+            continue
+        root, pivot = ar["root"], ar["pivot"]
+        rooted = r["row"]["root"] == "Always"
+        ast = r["ast"] if r["ast_ok"] else None
+        if R.separator_class(ast):
+            continue   # a class listing the separator is taken for the separator (known, C08)
+        if rooted and not root.startswith("/"):
+            rs = {"rooted-glob-walks-from-base"}
+            if R.root_in_nested_branch(ast):
+                rs.add("root-in-nested-branch")
+            rep.candidate(rs, {"short": {"program": r["text"], "has_root": "Always", "walk_root": root}})
+            continue
+        if rooted:
+            prefix = root
+        elif root == "B0":
+            prefix = ""
+        elif root.startswith("B0/"):
+            prefix = root[3:]
+        else:
+            rep.candidate({"anchor-not-below-base"}, {"short": {"program": r["text"], "walk_root": root}})
+            continue
+        comps = [c for c in prefix.split("/") if c]
+        if any(c in (".", "..") for c in comps):
+            continue   # native components: canonical paths cannot express them
+        want_pivot = len(comps) + (1 if rooted else 0)
+        if pivot != want_pivot:
+            rep.candidate({"pivot-is-not-prefix-depth"},
+                          {"short": {"program": r["text"], "walk_root": root, "pivot": pivot,
+                                     "prefix_components": len(comps), "rooted": rooted}})
+        if not comps:
+            continue
+        anchored += 1
+        info.setdefault(i, r)
+        canon = ("/" if rooted else "") + "/".join(comps)
+        shape = "CANONABS" if rooted else "CANONREL"
+        below = union(lit(canon), cat(lit(canon), SEP, "CANONREL"))
+        tasks.append((("anchor", i, canon), member(diff(inter(r["row"]["smt"], shape), below))))
     res = ses.solve(tasks)
     wit = []
     for key, (status, w, _) in res.items():
@@ -54,6 +97,12 @@ def run():
         r = info[i]
         m = ses.replay_match([({"glob": r["text"]}, w)])[0]["m"]
         comps_w = [c for c in w.split("/") if c]
+        if kind == "anchor":
+            if not m or w == j or w.startswith(j + "/"):
+                raise Inconclusive("anchor witness %r for %r does not reproduce" % (w, r["text"]))
+            rep.candidate({"match-outside-walk-root"},
+                          {"short": {"program": r["text"], "walk_starts_at": j, "matching_path_not_below_it": w}})
+            continue
         if kind == "prune":
             cm = probe([{"op": "match", "target": {"re": r["row"]["comps"][j]["re"]}, "paths": [comps_w[j]]}])[0]["results"][0]["m"]
             if not m or cm:
@@ -82,6 +131,7 @@ def run():
         "walkdir delivers every entry of every non-skipped directory exactly once, parents before children (environment contract); cancellation itself is C13",
     ]
     return ses.finish(with_comps, {"programs_total": len(recs), "programs_with_component_programs": with_comps,
+                                   "programs_with_walk_prefix": anchored,
                                    "generated": stats, "kani": kcov,
                                    "functions_encoded": ["WalkProgram::compile", "Token::components",
                                                           "Token::has_boundary", "encode::compile",
